@@ -20,10 +20,11 @@ Conventions
 * matmul: Naive runs an 8×8-blocked loop, Eigen a BLAS-like product; over a
   ring (and on the integer correspondence domain) the order of the additions
   does not matter, so the model is the mathematical triple loop.
-* 32-bit arithmetic is explicit where it can matter (`convPos`: the window
-  position `-padding + y*stride + w*dilation` computed in uint32 and
-  reinterpreted as int32).  Flat addresses are plain `Nat`: under the front-end
-  guard every tensor has fewer than 2^32 elements, so they do not wrap.
+* Window positions of conv2d / max_pool2d: `convPos` (64-bit signed, exact —
+  the code after patches/fix-conv-pool-window-wrap.diff); `convPos32` keeps the
+  32-bit computation of the pinned tree for the witness of the defect.  Flat
+  addresses are plain `Nat`: under the front-end guard every tensor has fewer
+  than 2^32 elements, so they do not wrap.
 
 Tie to the code: translator (formulas) + correspondence (harness `h_karith`).
 Core Lean only.
@@ -259,13 +260,21 @@ def devMatmulBw [Add α] [Mul α] (a b y gy ga gb : Tensor α) : R (Grad2 α) :=
 
 end matmul
 
-/-! ### window positions in 32-bit arithmetic -/
+/-! ### window positions -/
 
 /-- reinterpretation of a uint32 value as int32 -/
 def toI32 (v : Nat) : Int := if v % W < 2147483648 then ((v % W : Nat) : Int) else ((v % W : Nat) : Int) - 4294967296
 
-/-- `const std::int32_t pos = -padding + y * stride + w * dilation;` (uint32 arithmetic, then int32) -/
-def convPos (p y s w d : Nat) : Int := toI32 (add32 (add32 (sub32 0 p) (mul32 y s)) (mul32 w d))
+/-- The window position as the tree pinned at the start computed it:
+`const std::int32_t pos = -padding + y * stride + w * dilation;` (uint32 arithmetic, then int32).
+For a padding within `x_height` of 2^32 the result wraps around into the valid range
+(Props/C02/Arith.lean `convPos32_wrap_witness`); patches/fix-conv-pool-window-wrap.diff. -/
+def convPos32 (p y s w d : Nat) : Int := toI32 (add32 (add32 (sub32 0 p) (mul32 y s)) (mul32 w d))
+
+/-- The window position after the fix:
+`const std::int64_t pos = (int64)y * stride + (int64)w * dilation - padding;` — every operand is below
+2^32, so the 64-bit signed arithmetic is exact. -/
+def convPos (p y s w d : Nat) : Int := ((y * s + w * d : Nat) : Int) - (p : Int)
 
 /-! ### conv2d -/
 section conv2d
@@ -304,9 +313,9 @@ structure ConvDims where
 namespace ConvDims
 def posY (D : ConvDims) (t : ConvIt) : Int := convPos D.p0 t.yy D.s0 t.wy D.d0
 def posX (D : ConvDims) (t : ConvIt) : Int := convPos D.p1 t.yx D.s1 t.wx D.d1
-/-- `x_y >= 0 && x_y < (int32)x_height && x_x >= 0 && x_x < (int32)x_width` -/
+/-- `x_y >= 0 && x_y < (int64)x_height && x_x >= 0 && x_x < (int64)x_width` -/
 def valid (D : ConvDims) (t : ConvIt) : Bool :=
-  decide (0 ≤ D.posY t) && decide (D.posY t < toI32 D.xh) && decide (0 ≤ D.posX t) && decide (D.posX t < toI32 D.xw)
+  decide (0 ≤ D.posY t) && decide (D.posY t < (D.xh : Int)) && decide (0 ≤ D.posX t) && decide (D.posX t < (D.xw : Int))
 /-- `(x_c * x_width + x_x) * x_height + x_y`, plus the batch shift -/
 def xa (D : ConvDims) (t : ConvIt) : Nat :=
   t.bn * D.xShift + ((t.xc * D.xw + (D.posX t).toNat) * D.xh + (D.posY t).toNat)
@@ -378,10 +387,10 @@ namespace PoolDims
 def window (D : PoolDims) (yx yy : Nat) : List Nat :=
   (List.range D.w1).flatMap fun wx =>
     let xx := convPos D.p1 yx D.s1 wx 1
-    if xx < 0 ∨ xx ≥ toI32 D.xw then []
+    if xx < 0 ∨ xx ≥ (D.xw : Int) then []
     else (List.range D.w0).filterMap fun wy =>
       let xy := convPos D.p0 yy D.s0 wy 1
-      if xy < 0 ∨ xy ≥ toI32 D.xh then none else some (xx.toNat * D.xh + xy.toNat)
+      if xy < 0 ∨ xy ≥ (D.xh : Int) then none else some (xx.toNat * D.xh + xy.toNat)
 /-- `for r < repeat: for y_x < y_width: for y_y < y_height` -/
 def outer (D : PoolDims) : List (Nat × Nat × Nat) := range3 D.rep D.yw D.yh
 def ya (D : PoolDims) (t : Nat × Nat × Nat) : Nat := t.1 * (D.yh * D.yw) + (t.2.1 * D.yh + t.2.2)
